@@ -8,7 +8,7 @@ static struct TP *mkpool(void) {
   p->m_queue.items = malloc(g_lcap * sizeof(struct Runnable *)); __CPROVER_assume(p->m_queue.items != 0);
   __CPROVER_assume(p->m_pool.len <= g_lcap && p->m_queue.head <= g_lcap && p->m_queue.len <= g_lcap - p->m_queue.head);
   g_tp = p; g_held_queue = 0; g_held_pool = 0; g_notifies = 0; g_starts = 0;
-  g_wthread_joins = 0; g_wthread_deletes = 0; g_wtask_runs = 0; g_wtask_deletes = 0;
+  g_wthread_joins = 0; g_wthread_deletes = 0; g_wtask_runs = 0; g_wtask_deletes = 0; g_taken = 0; g_taken_runs = 0; g_taken_deletes = 0; g_read_valid = 0;
   /* the watched thread / task are the ones at the watched positions; list entries are pairwise distinct objects */
   g_wthread = (g_wi < p->m_pool.len) ? p->m_pool.items[g_wi] : 0;
   g_wtask = (g_wq < p->m_queue.len) ? p->m_queue.items[p->m_queue.head + g_wq] : 0;
@@ -31,7 +31,9 @@ void h_TP_stop(void) {
   __CPROVER_assert(!p->m_isRunning && p->m_pool.len == 0 && p->m_queue.len == 0, "C08 stop() leaves no worker, no queued task and the flag cleared");
   __CPROVER_assert(g_notifies >= 1, "C08 clearing the flag is followed by notify_all");
   CANARY; }
-void h_TP_clear(void) { struct TP *p = mkpool(); g_role = ROLE_OWNER; _Bool w; g_workers_exist = w; TP__clear(p); quiet(); __CPROVER_assert(p->m_queue.len == 0, "C07 clear() empties the queue"); CANARY; }
+void h_TP_clear(void) { struct TP *p = mkpool(); g_role = ROLE_OWNER; _Bool w; g_workers_exist = w; size_t q0 = p->m_queue.len; TP__clear(p); quiet();
+  __CPROVER_assert(p->m_queue.len == 0, "C07 clear() empties the queue");
+  __CPROVER_assert(g_wtask_deletes == (g_wq < q0 ? 1 : 0) && g_wtask_runs == 0, "C07 clear() destroys every queued task exactly once and runs none"); CANARY; }
 void h_TP_update(void) { struct TP *p = mkpool(); g_role = ROLE_OWNER; _Bool w; g_workers_exist = w; TP__update(p); quiet(); CANARY; }
 void h_TP_getters(void) { struct TP *p = mkpool(); g_role = ROLE_OWNER; _Bool w; g_workers_exist = w;
   (void)TP__getExpiryTimeout(p); (void)TP__getMaxThreadCount(p); (void)TP__getActiveThreadCount(p); (void)TP__getThreadCount(p); (void)TP__isRunning(p); quiet(); CANARY; }
